@@ -64,6 +64,9 @@ def gen_ops(tier, rng):
             for out in sorted({0, 1, L, d * L - 1, d * L, d * L + 1}):
                 ops.append((f"sjoin {d} {p} {L} {out} {d+p} - {rng.randrange(1,1<<30)}", {"cat": "join", "L": L, "B": 1}))
                 ops.append((f"sjoin {d} {p} {L} {out} {d} - {rng.randrange(1,1<<30)}", {"cat": "join", "L": L, "B": 1}))
+        # Split wants exactly DataShards writers: fewer or more (up to and beyond TotalShards) are ErrInvShardNum, nothing written
+        for nw in sorted({max(0, d - 1), d + 1, d + p, d + p + 1} - {d}):
+            ops.append((f"ssplit {d} {p} 100 100 - {rng.randrange(1,1<<30)} {nw}", {"cat": "split-writer-count", "L": 100, "B": 1}))
         # Join considers the data streams only: a nil or failing reader in a PARITY position changes nothing, one in a data
         # position is reported; every index, all d+p readers given
         for i in range(d + p):
